@@ -59,3 +59,21 @@ Example C18_example :
   contiguous (expand_tl [(Some 0, 960, 2); (None, 480, 0)] 0) = true /\
   contiguous (expand_tl [(Some 0, 960, 2); (Some 3000, 480, 0)] 0) = false.
 Proof. vm_compute. repeat split; reflexivity. Qed.
+
+(* ---- manifest level (Manifest.validate_self and the cross-refresh check) *)
+Theorem C18_manifest_no_false_positive : forall f, server_manifest f -> manifest_errors f = [].
+Proof. exact server_manifest_ok. Qed.
+Print Assumptions C18_manifest_no_false_positive.
+
+Theorem C18_detects_missing_availabilityStartTime : forall f, m_live f = true -> In MAst (manifest_errors (drop_ast f)).
+Proof. exact detect_missing_ast. Qed.
+Print Assumptions C18_detects_missing_availabilityStartTime.
+
+Theorem C18_detects_missing_minBufferTime : forall f, In MMinBuf (manifest_errors (drop_minbuf f)).
+Proof. exact detect_missing_minbuf. Qed.
+Print Assumptions C18_detects_missing_minBufferTime.
+
+Theorem C18_detects_changed_availabilityStartTime :
+  forall f a v, m_live f = true -> m_prev_ast f = Some a -> v <> a -> In MAstChanged (manifest_errors (change_ast f v)).
+Proof. exact detect_ast_change. Qed.
+Print Assumptions C18_detects_changed_availabilityStartTime.
